@@ -204,6 +204,22 @@ def check(run):
             if a0 in ('header', '(value + 1)'):
                 g = [(q.render(pr, a), p) for a, p in q.guards_at(pr, n)]
                 run.check(('(value > next)', False) in g, 'R5', 'range-ordered', '%s: string(%s, %s)' % (PR, a0, a1), pr.loc(n), 'a string is built from two pointers whose order was not tested (value <= next)', 'dominated by !(value > next)')
+    run.clause('path derivation order: the target is cut at the first ? BEFORE it is normalised (query content never takes part in ../ removal), except for CONNECT')
+    norm = [c for c in pr.calls() if q.callee_name(c) == 'sim::normalize']
+    if not norm:
+        run.broke('parse_request no longer calls normalize()')
+    for c in norm:
+        a = q.render(pr, c['args'][0])
+        cut_inside = '.substr(0, ' in a and ('find_first_of(63' in a or "find_first_of('?'" in a or 'find(63' in a)
+        g = [(q.render(pr, x), p) for x, p in q.guards_at(pr, c)]
+        p_ = pr.parent(c)
+        while p_ is not None and p_['k'] in ('cast', 'construct'):
+            p_ = pr.parent(p_)
+        direct = p_ is not None and p_['k'] == 'call' and (p_.get('callee') or '').endswith('::assign') and q.render(pr, p_.get('obj')) == 'ret.path'
+        run.check(cut_inside and direct, 'R4', 'cut-before-normalise', PR + ': normalize(' + a[:60] + ')', pr.loc(c),
+                  'normalize() is applied to %s%s: the path must be normalize(target up to the first ?) so that a ../ or / inside the query string cannot rewrite the path' % (a[:80], '' if direct else ' and the result is post-processed'),
+                  'normalize(req.substr(0, req.find_first_of(?))) assigned to the path')
+        run.check(any('CONNECT' in t and p for t, p in g), 'R5', 'connect-exempt', PR, pr.loc(c), 'normalisation is not restricted to methods other than CONNECT', 'under method != CONNECT')
     run.ok('R12', 'trim-indexing', 'sim::trim', fx.fn1('sim::trim').loc(), 'tabled: s[start] with start == size() reads the terminator, which std::string::operator[] permits; end-1 >= start >= 0 on the second loop because the string is non-empty', nontrivial=False)
     run.floor('R12', 12)
     run.floor('R5', 12)
